@@ -16,6 +16,11 @@ CHECKS = {
    "TLC explores every interleaving of producer/consumer I/O and padding for small fan-outs on models transcribed from R2owa/I2rw.Simulate, VM.Step and the HDL templates; the same behaviours are replayed tick by tick on the real artefacts (lock-step compared) and everything the real artefacts do is judged by the property-level bond spec, so a handshake change that loses, duplicates or reorders a value under some phase offset is rejected at the tick where it happens.",
    "Bounds: fan-out <=3 (4 thorough), <=3..6 sends in the exhaustive models; random programs up to 10 sends, fan-out 4, fixed per-opcode delays. Two genuine defects of the pinned tree are listed in known_findings.json by root-cause signature. Trusted: TLC, the projection of VM fields into events, the Verilog interpreter for the HDL back-end.",
    "DESIGN.md §4 C04", "bmverif"),
+ "C03": ("model_checking",
+   "TLA+ spec of the instruction encoding (BMIsa: format table, Encode/Decode) with FixedWidth/Lossless/RangeCheck checked by TLC over an enumerated domain of architectures x opcodes x operand tuples; the table of expected results TLC writes is replayed row by row on the real Arch.Assembler and Machine.Disassembler",
+   "TLC enumerates every opcode of the format table under every field-width combination of the bounded architecture domain with in-range and out-of-range operands, proves the code's intended theorems on the specification and exports the expected result of every row; the harness replays all rows on the real assembler/disassembler and judges the real results (exact width, round trip both ways, misfits rejected), so a wrong bit-slice, padding or missing range check in one opcode under one width combination is found.",
+   "Domain: rsize in {4,8,16} (TLC integers are 32 bit, so 32/64-bit immediates are outside the enumerated domain), R 1..3, N/M 0..9, L 0..3, O 1..4, opcode fields 1..7 bits, WordSize 0/natural+k; 79 opcodes in 'ha' mode; shared-object and video-memory opcodes are outside the table. Trusted: TLC, the rendering of a row as assembly text.",
+   "DESIGN.md §4 C03", "bmverif"),
 }
 NOT_APPLICABLE = {
  "C18": "static well-formedness of generated Verilog text (parse/lint judgement): no state, transitions or behaviour for a TLA+ specification to decide; see DESIGN.md §5",
